@@ -32,7 +32,7 @@ own depth, the instance's print one level deeper under the same effective filter
 theorem C19_section_instances (o : Opt) (pff : Option (List Bytes)) (indent : Nat) (secs : List Cfg) :
     printVals o pff indent (secs.map Val.sec) =
       (secs.map (fun s =>
-        indentBytes indent ++ o.name ++ (if o.flags.title then [c_sp] ++ printQuoted s.info.title else []) ++
+        indentBytes indent ++ printName o.name ++ (if o.flags.title then [c_sp] ++ printQuoted s.info.title else []) ++
           [c_sp, c_lbr, c_nl] ++ printCfg pff (indent + 1) s ++ indentBytes indent ++ [c_rbr, c_nl])).flatten := by
   induction secs with
   | nil => simp [printVals]
@@ -55,7 +55,7 @@ theorem C19_own_filter (s : Cfg) (eff : Option (List Bytes)) (p : List Bytes) (i
 theorem C19_unset_commented (pff : Option (List Bytes)) (indent : Nat) (info : OptInfo) (flags : Flags) (subs : List Decl)
     (hs : info.ty ≠ .sec) (hf : info.ty ≠ .func) (hl : flags.list = false) :
     printOpt pff indent (.mk info flags subs [] none) =
-      indentBytes indent ++ [c_hash, c_sp] ++ info.name ++ [c_eq] ++ printValue (.mk info flags subs [] none) 0 ++ [c_nl] := by
+      indentBytes indent ++ [c_hash, c_sp] ++ printName info.name ++ [c_eq] ++ printValue (.mk info flags subs [] none) 0 ++ [c_nl] := by
   simp [printOpt, hs, hf, hl, isUnset, Opt.vals, List.append_assoc]
 
 /-- **C19 (print callback).** The callback's output replaces the built-in formatting of exactly
@@ -70,7 +70,7 @@ theorem C19_callback (o : Opt) (i : Nat) :
 theorem C19_scalar_indent (pff : Option (List Bytes)) (indent : Nat) (info : OptInfo) (flags : Flags) (subs : List Decl) (vals : List Val)
     (hs : info.ty ≠ .sec) (hf : info.ty ≠ .func) (hl : flags.list = false) :
     ∃ rest, printOpt pff indent (.mk info flags subs vals none) = indentBytes indent ++ rest := by
-  refine ⟨(if isUnset (.mk info flags subs vals none) then [c_hash, c_sp] else []) ++ info.name ++ [c_eq] ++
+  refine ⟨(if isUnset (.mk info flags subs vals none) then [c_hash, c_sp] else []) ++ printName info.name ++ [c_eq] ++
     printValue (.mk info flags subs vals none) 0 ++ [c_nl], ?_⟩
   simp [printOpt, hs, hf, hl, List.append_assoc]
 
